@@ -148,6 +148,25 @@ class EndpointUrlArgsGenerator:
             writer.write_line("}")
             writer.write_line("")  # Add a blank line
 
+        # Cookie Parameters
+        cookie_params_to_write = [p for p in ordered_params if p.get("param_in") == "cookie"]
+        if cookie_params_to_write:
+            context.add_import("typing", "Any")
+            context.add_import(f"{context.core_package_name}.utils", "DataclassSerializer")
+            writer.write_line("cookies: dict[str, Any] = {")
+            for p_info in cookie_params_to_write:
+                param_var_name = NameSanitizer.sanitize_method_name(p_info["name"])
+                cookie_name = python_string_literal(p_info["original_name"])
+                if p_info.get("required", False):
+                    writer.write_line(f"    {cookie_name}: DataclassSerializer.serialize({param_var_name}),")
+                else:
+                    writer.write_line(
+                        f"    **({{{cookie_name}: DataclassSerializer.serialize({param_var_name})}} "
+                        f"if {param_var_name} is not None else {{}}),"
+                    )
+            writer.write_line("}")
+            writer.write_line("")  # Add a blank line
+
         # Request Body related local variables (json_body, files_data, etc.)
         # This part was in _write_url_and_args in the original, it sets up variables used by _write_request
         if op.request_body:
